@@ -189,6 +189,53 @@ func xvalOf(v cadence.Value) string {
 	return "XOpaque"
 }
 
+// canonValue renders an exported value canonically: dictionary entries sorted by key text (entry
+// order is not an observable), run-specific script/transaction locations removed.
+func canonValue(v cadence.Value) string {
+	switch x := v.(type) {
+	case nil:
+		return "<nil>"
+	case cadence.Optional:
+		if x.Value == nil {
+			return "nil"
+		}
+		return "some(" + canonValue(x.Value) + ")"
+	case cadence.Array:
+		ps := make([]string, len(x.Values))
+		for i, e := range x.Values {
+			ps[i] = canonValue(e)
+		}
+		return "[" + strings.Join(ps, ", ") + "]"
+	case cadence.Dictionary:
+		ps := make([]string, len(x.Pairs))
+		for i, kv := range x.Pairs {
+			ps[i] = canonValue(kv.Key) + ": " + canonValue(kv.Value)
+		}
+		sort.Strings(ps)
+		return "{" + strings.Join(ps, ", ") + "}"
+	case cadence.Struct:
+		return canonComposite(x.StructType.ID(), cadence.FieldsMappedByName(x))
+	case cadence.Resource:
+		return canonComposite(x.ResourceType.ID(), cadence.FieldsMappedByName(x))
+	case cadence.Event:
+		return canonComposite(x.EventType.ID(), cadence.FieldsMappedByName(x))
+	}
+	return locRe.ReplaceAllString(v.String(), "")
+}
+
+func canonComposite(id string, fields map[string]cadence.Value) string {
+	names := make([]string, 0, len(fields))
+	for n := range fields {
+		names = append(names, n)
+	}
+	sort.Strings(names)
+	ps := make([]string, len(names))
+	for i, n := range names {
+		ps[i] = n + ": " + canonValue(fields[n])
+	}
+	return locRe.ReplaceAllString(id, "") + "(" + strings.Join(ps, ", ") + ")"
+}
+
 func xvalOfLog(s string) string {
 	if z, err := strconv.ParseInt(s, 10, 64); err == nil {
 		return "(XInt " + zlit(z) + ")"
@@ -223,7 +270,7 @@ func observe(o lib.Outcome) observed {
 		ob.Kind = fmt.Sprintf("go-panic:%T", o.Panic)
 	}
 	if ob.Class == "" {
-		ob.Value = locRe.ReplaceAllString(lib.ValueString(o.Value), "")
+		ob.Value = canonValue(o.Value)
 		ob.coqRes = "(Ok " + xvalOf(o.Value) + ")"
 	} else if coqErr[ob.Class] {
 		ob.coqRes = "(Err " + ob.Class + ")"
@@ -231,7 +278,7 @@ func observe(o lib.Outcome) observed {
 		ob.coqRes = "(Err UserOther)"
 	}
 	for _, e := range o.Events {
-		ob.Events = append(ob.Events, e.String())
+		ob.Events = append(ob.Events, canonValue(e))
 	}
 	return ob
 }
@@ -313,7 +360,7 @@ func c52(sum *lib.Summary) {
 	}
 	nprog := 480
 	if *tier == "thorough" {
-		nprog = 6000
+		nprog = 3000
 	}
 	sum.Rule = "MiniCadence programs (expressions whose leaves are logging probe calls nested in every operator and statement form of the " +
 		"fragment), each run as a script by the interpreter and by the VM; result/error class and ProgramLog sequence of both engines are compared " +
